@@ -140,6 +140,12 @@ struct Hist {
       else for (size_t i = 0; i < n; i++) k += (char)r.range(1, 255);
     } else if (r.below(12) == 0) {
       k = std::string(r.range(30, 40), (char)r.range(0x7e, 0x81)) + k;  // shared long prefix around the sign boundary, distinct tail
+    } else if (r.below(10) == 0) {
+      // family of keys longer than 64 bytes with different lengths that share their first 32..40 bytes and differ both in
+      // a middle 32-byte block and in the tail ("dotted metric names")
+      std::string mid(r.range(20, 60), 'm');
+      for (auto& c : mid) c = (char)('a' + r.below(3));
+      k = "service.component.subcomponent.metric." + mid + "." + k + std::string(r.below(20), 'z');
     }
     if (r.below(10) == 0) k = std::string(1, (char)r.range(0x21, 0x7e)) + k;
     return k;
@@ -950,6 +956,46 @@ static void compare_pair(const NA& a, const NB& b, const JVal& ma, const JVal& m
   if (ab != want) vf::violation(std::string(want ? "equal-values-compare-unequal:" : "different-values-compare-equal:") + what, ctx);
 }
 
+// objects whose keys are long, of different lengths, share their first 32+ bytes and differ in a middle block and in the
+// tail; one side carries lookup maps
+static vf::Counter c18_longkeys("pairs:objects-with-long-shared-prefix-keys(map on one side)");
+static void c18_longkey_case(vf::Rng& r) {
+  JVal v = JVal::obj();
+  size_t n = r.range(3, 24);
+  std::string prefix(r.range(32, 48), 'p');
+  for (auto& c : prefix) c = (char)r.range(0x21, r.coin() ? 0x7e : 0xff);
+  for (size_t i = 0; i < n; i++) {
+    std::string mid(r.range(10, 70), 'm');
+    for (auto& c : mid) c = (char)('a' + r.below(2));
+    std::string k = prefix + mid + "#" + std::to_string(i) + std::string(r.below(30), (char)r.range(0x21, 0xff));
+    v.o.emplace_back(k, JVal::uint(i));
+  }
+  if (jm::has_dup_keys(v)) return;
+  std::string kind;
+  JVal w = v;
+  for (size_t i = w.o.size() - 1; i > 0; i--) std::swap(w.o[i], w.o[r.below(i + 1)]);
+  bool changed = r.below(3) == 0;
+  if (changed) w.o[r.below(w.o.size())].second = JVal::str("changed");
+  c18_longkeys.add();
+  vf::witness(jm::describe(v, 2000));
+  vf::distinct(jm::hash_val(v));
+  BuildStyle plain{su::kStrCopy, false, false, false, false}, mapped{su::kStrMixed, true, true, false, false};
+  su::PoolDoc a, b;
+  styled_build(static_cast<su::PoolNode&>(a), v, a.GetAllocator(), r, plain);
+  styled_build(static_cast<su::PoolNode&>(b), w, b.GetAllocator(), r, mapped);
+  if (b.IsObject()) b.CreateMap(b.GetAllocator());
+  compare_pair(a, b, v, w, changed ? "long-keys:value-changed" : "long-keys:permuted", "plain-vs-mapped");
+  compare_pair(b, b, w, w, "long-keys:self", "mapped-vs-mapped");
+  su::PoolNode copy(b, b.GetAllocator(), true);
+  copy.CreateMap(b.GetAllocator());
+  if (!(copy == b) || !(b == copy)) vf::violation("deep-copy-not-equal", "long keys, both with map");
+  for (auto& m : w.o)
+    if (!b.HasMember(StringView(m.first.data(), m.first.size()))) {
+      vf::violation("long-keys:present-member-not-found-through-map", "key of " + std::to_string(m.first.size()) + " bytes");
+      break;
+    }
+}
+
 static void c18_case(vf::Rng& r) {
   jm::GenOpts go;
   go.max_depth = 4;
@@ -1021,6 +1067,7 @@ int main(int argc, char** argv) {
     S.push_back({"histories_ledger", 20000, 600000, [trim_pool](uint64_t, vf::Rng& r) { c13_history(r); trim_pool(); }});
   } else {
     S.push_back({"pairs_and_triples", 60000, 3000000, [trim_pool](uint64_t, vf::Rng& r) { c18_case(r); trim_pool(); }});
+    S.push_back({"long_shared_prefix_keys", 8000, 400000, [trim_pool](uint64_t, vf::Rng& r) { c18_longkey_case(r); trim_pool(); }});
   }
   return vf::run(argc, argv, S);
 }
